@@ -52,3 +52,86 @@ func (r *vReporter) ReportHistogramDurationSamples(name string, tags map[string]
 }
 func (r *vReporter) Capabilities() Capabilities { return capabilitiesReportingTagging }
 func (r *vReporter) Flush()                     { r.flushes++ }
+
+// ---- cached reporter that records allocations and reports --------------------------
+
+type vAlloc struct {
+	kind string // counter gauge timer histogram
+	name string
+	tags map[string]string
+	spec Buckets
+}
+
+type vCachedCall struct {
+	alloc  int // index into allocs
+	kind   string
+	i      int64
+	f      float64
+	bucket int // index into buckets for samples
+}
+
+type vBucket struct {
+	alloc  int
+	isDur  bool
+	lo, hi float64
+	dlo    time.Duration
+	dhi    time.Duration
+}
+
+type vCachedReporter struct {
+	allocs  []vAlloc
+	buckets []vBucket
+	calls   []vCachedCall
+	flushes int
+	closed  int
+}
+
+type vCachedHandle struct {
+	r     *vCachedReporter
+	alloc int
+}
+
+type vCachedBucketHandle struct {
+	r      *vCachedReporter
+	bucket int
+}
+
+func (r *vCachedReporter) alloc(kind, name string, tags map[string]string, spec Buckets) vCachedHandle {
+	r.allocs = append(r.allocs, vAlloc{kind, name, tags, spec})
+	return vCachedHandle{r, len(r.allocs) - 1}
+}
+func (r *vCachedReporter) AllocateCounter(name string, tags map[string]string) CachedCount {
+	return r.alloc("counter", name, tags, nil)
+}
+func (r *vCachedReporter) AllocateGauge(name string, tags map[string]string) CachedGauge {
+	return r.alloc("gauge", name, tags, nil)
+}
+func (r *vCachedReporter) AllocateTimer(name string, tags map[string]string) CachedTimer {
+	return r.alloc("timer", name, tags, nil)
+}
+func (r *vCachedReporter) AllocateHistogram(name string, tags map[string]string, b Buckets) CachedHistogram {
+	return r.alloc("histogram", name, tags, b)
+}
+func (r *vCachedReporter) Capabilities() Capabilities { return capabilitiesReportingTagging }
+func (r *vCachedReporter) Flush()                     { r.flushes++ }
+
+func (h vCachedHandle) ReportCount(v int64) {
+	h.r.calls = append(h.r.calls, vCachedCall{alloc: h.alloc, kind: "counter", i: v})
+}
+func (h vCachedHandle) ReportGauge(v float64) {
+	h.r.calls = append(h.r.calls, vCachedCall{alloc: h.alloc, kind: "gauge", f: v})
+}
+func (h vCachedHandle) ReportTimer(d time.Duration) {
+	h.r.calls = append(h.r.calls, vCachedCall{alloc: h.alloc, kind: "timer", i: int64(d)})
+}
+func (h vCachedHandle) ValueBucket(lo, hi float64) CachedHistogramBucket {
+	h.r.buckets = append(h.r.buckets, vBucket{alloc: h.alloc, lo: lo, hi: hi})
+	return vCachedBucketHandle{h.r, len(h.r.buckets) - 1}
+}
+func (h vCachedHandle) DurationBucket(lo, hi time.Duration) CachedHistogramBucket {
+	h.r.buckets = append(h.r.buckets, vBucket{alloc: h.alloc, isDur: true, dlo: lo, dhi: hi})
+	return vCachedBucketHandle{h.r, len(h.r.buckets) - 1}
+}
+func (b vCachedBucketHandle) ReportSamples(v int64) {
+	b.r.calls = append(b.r.calls, vCachedCall{alloc: b.r.buckets[b.bucket].alloc, kind: "samples", i: v, bucket: b.bucket})
+}
